@@ -1,0 +1,10 @@
+//go:build verif
+// +build verif
+
+package backend
+
+// Contracts for /verif (tool: gov); comments only.
+//@ func lemmaC17_frequency
+//@   props C17
+//@ func lemmaC17_percentage
+//@   props C17
